@@ -3,7 +3,8 @@ translation unit walking the type JSON (read_/dump_ per composite, ser/des/meta 
 
 options: target_endianness any|little|big (default any); enable_serialization_asserts (bool; compiled with
 -DNUNAVUT_ASSERT=assert); sanitize (bool: clang -fsanitize=address,undefined -fno-sanitize-recover=all); cc (compiler override);
-opt (optimisation level, default '-O1').
+opt (optimisation level, default '-O1'); enable_override_variable_array_capacity,
+omit_float_serialization_support (nnvg flags; defaults untouched, the latter needs a float-free namespace).
 
 Buffers handed to the generated code are heap blocks of exactly the requested size (malloc(0) for empty ones) so that the
 sanitizers see any access past the end.  `fresh` destination objects are zero-filled, `poison` ones 0xA5-filled."""
@@ -545,6 +546,10 @@ class CTarget(proto.Target):
                    '--target-endianness', self.options.get('target_endianness', 'any')]
             if self.options.get('enable_serialization_asserts'):
                 cmd.append('--enable-serialization-asserts')
+            if self.options.get('enable_override_variable_array_capacity'):
+                cmd.append('--enable-override-variable-array-capacity')
+            if self.options.get('omit_float_serialization_support'):
+                cmd.append('--omit-float-serialization-support')       # only float-free namespaces compile then
             for j, o in enumerate(ns_dirs):
                 if j != i:
                     cmd += ['-I', o]
